@@ -1,7 +1,7 @@
 (* C12 - commit and uncommit move the stack base without rewriting history.
    Only the property theorems; proofs in Proofs/CommitProofs.v and by computation on Gen/. *)
 From Coq Require Import String.
-From StgV Require Import Model.CmdSpec Gen.CmdTable Proofs.CommitProofs.
+From StgV Require Import Model.CmdSpec Model.LogSpec Gen.CmdTable Proofs.CommitProofs Proofs.CommitRoundTrip.
 
 (* committing the bottom-most applied patches creates no object, keeps the head, removes
    exactly those patches and makes the last of them the base *)
@@ -64,6 +64,58 @@ Theorem C12_walk_down_chain :
     walk_down objs (nth (k - 1) oids O) k = Some (rev (firstn k oids)).
 Proof. exact walk_down_chain. Qed.
 Print Assumptions C12_walk_down_chain.
+
+(* ------------------------------------------------------------------------------------------
+   Whole-command round trip (proofs in Proofs/CommitRoundTrip.v): `stg commit -n k` followed by
+   `stg uncommit <the same k names>` (top-most name first, as the command line takes them) gives
+   back exactly the stack there was: the same commits under the same names in the same order,
+   the same unapplied and hidden patches; the branch never moves, index and work tree are
+   untouched.  The head the state RECORDS afterwards is the branch head.
+   ------------------------------------------------------------------------------------------ *)
+Theorem C12_commit_uncommit_roundtrip :
+  forall lower_s w st0 k ae w1 w2,
+    Inv6 w ->
+    cur_state w = Some st0 ->
+    (1 <= k)%nat -> (k <= length (s_applied st0))%nat ->
+    step lower_s w (CCommit None (Some (N.of_nat k)) false ae) = (w1, X0) ->
+    step lower_s w1 (CUncommit None (rev (firstn k (s_applied st0)))) = (w2, X0) ->
+    (exists st2, cur_state w2 = Some st2
+                 /\ s_applied st2 = s_applied st0 /\ s_unapplied st2 = s_unapplied st0
+                 /\ s_hidden st2 = s_hidden st0
+                 /\ s_head st2 = w_branch w
+                 /\ (forall n, pm_get (s_patches st2) n = pm_get (s_patches st0) n))
+    /\ w_branch w1 = w_branch w /\ w_branch w2 = w_branch w
+    /\ w_wt w2 = w_wt w /\ w_unmerged w2 = w_unmerged w.
+Proof. exact commit_uncommit_roundtrip_general. Qed.
+Print Assumptions C12_commit_uncommit_roundtrip.
+
+(* with `same_stack` (which also compares the RECORDED head with the one recorded before) the
+   statement is false: after a plain-git commit, an stg command, `stg undo` and `git reset --hard`
+   back onto the top patch the state still records the other head; the round trip records the
+   branch head.  First pinned in that form; the prover returned this witness (reachable by
+   commands).  It is a correction of my statement, not a defect: C12 speaks of commits and base. *)
+Theorem C12_roundtrip_recorded_head_refuted :
+  ~ (forall lower_s, LowerOK lower_s ->
+     forall w st0 k ae w1 w2,
+       Inv6 w -> prev_decreasing (w_objs w) ->
+       cur_state w = Some st0 ->
+       (1 <= k)%nat -> (k <= length (s_applied st0))%nat ->
+       step lower_s w (CCommit None (Some (N.of_nat k)) false ae) = (w1, X0) ->
+       step lower_s w1 (CUncommit None (rev (firstn k (s_applied st0)))) = (w2, X0) ->
+       (exists st2, cur_state w2 = Some st2 /\ same_stack st2 st0)
+       /\ w_branch w1 = w_branch w /\ w_branch w2 = w_branch w
+       /\ w_wt w2 = w_wt w /\ w_unmerged w2 = w_unmerged w).
+Proof. exact commit_uncommit_roundtrip_refuted. Qed.
+Print Assumptions C12_roundtrip_recorded_head_refuted.
+
+(* the premises are satisfiable: two non-empty applied patches, k = 2, both commands succeed *)
+Theorem C12_commit_uncommit_nonvacuous :
+  exists w st0 w1 w2,
+    cur_state w = Some st0 /\ length (s_applied st0) = 2
+    /\ step (fun s => s) w (CCommit None (Some 2%N) false false) = (w1, X0)
+    /\ step (fun s => s) w1 (CUncommit None (rev (firstn 2 (s_applied st0)))) = (w2, X0).
+Proof. exact commit_uncommit_nonvacuous. Qed.
+Print Assumptions C12_commit_uncommit_nonvacuous.
 
 (* --- tie to the current source --- *)
 (* stg uncommit runs its transaction with set_head(false) and use_index_and_worktree(false) *)
